@@ -1,11 +1,40 @@
 CFG = {
     "id": "C15",
-    "level_text": "wip",
-    "level_note": "wip",
+    "level_text": "Proof over an executable Gallina model of every MarshalJSON/UnmarshalJSON in the repository as functions to and from an abstract JSON value "
+                  "(ordered object members; a member name must be a string for the value to be JSON). Theorems, for every content and every behaviour of the "
+                  "encoding/json parameters allowed by their premises: the marshalled value is well formed, unmarshalling it into a fresh container succeeds and "
+                  "gives the same abstract contents (same sequence for lists / queues / stacks / ring buffer / linkedhashset / linkedhashmap, same bindings "
+                  "for hash, tree and bidi maps and sets), and the restored state satisfies the invariant the container's own property needs (arraylist: "
+                  "len = cap and size <= len, hence Add cannot index out of range; ring buffer: cursor/size relation; linked containers: table = ordering, "
+                  "no duplicates; bidi maps: bijection; tree-backed: sorted). The four defects are proved as _refuted statements about the pre-repair code "
+                  "(D15 unclipped slice, D20 ring encoding, D22 unquoted member names, D23 byte-offset order recovery). Partial where stated in the note. "
+                  "Model and code are tied on every run: real bytes (json.Valid, parsed), a fresh and a non-empty decode target, representation details "
+                  "through verif accessors, and 3-8 further operations on the restored container judged against a reference inside Coq.",
+    "level_note": "encoding/json (text <-> value: escaping, number formatting, map-key ordering, slice growth) and banytostring are NOT modelled: they are parameters "
+                  "of the model, premises of the theorems (codec laws, permutation laws, grow n >= n) and are recorded from the real library for every case. "
+                  "Containers owned by other properties are modelled abstractly by their contents plus the representation detail the JSON code touches: "
+                  "red-black / AVL / B-tree, treemap, treeset, treebidimap as sorted association lists (C01), linked lists and the list-backed queues/stacks as "
+                  "sequences (C07/C08), binary heap and priority queue as the array list they wrap (heap order of the restored array follows from the array "
+                  "being identical; it is exercised by the Pops of the suffix, not proved here). 'Obeys its own property under further operations' is proved "
+                  "only as 'the restored state satisfies the invariant from which the other properties' theorems start' (plus Add-does-not-panic for "
+                  "arraylist); the further operations themselves are exercised by the harness. Ring buffers are exercised without zero-valued elements "
+                  "(D19, property C08, is not repaired in this tree). bslice / bmap / bcache Marshal/Unmarshal are one-line delegations to encoding/json and "
+                  "are only exercised (bcache values appear wrapped in its Iterator struct). Strings that are not valid UTF-8 are outside the codec premise "
+                  "(encoding/json replaces the bytes).",
     "harness": "c15",
-    "theorems": [],
-    "trusted": [],
-    "modelled": [],
-    "assumptions": [],
+    "theorems": [("C15.Props", [
+        "C15_linked_lists", "C15_arraylist", "C15_arraylist_usable", "C15_arraylist_unclipped_refuted", "C15_ring", "C15_ring_backing_refuted",
+        "C15_sets", "C15_linked_set", "C15_maps", "C15_tree_sorted", "C15_bidi", "C15_linkedmap",
+        "C15_linkedmap_unquoted_refuted", "C15_linkedmap_bytesindex_refuted"])],
+    "trusted": [
+        "encoding/json and banytostring as a codec: dec (enc x) = Some x, member-name text decodes back to the key, a Go map is written / ranged over in some "
+        "permutation, a decoded slice has capacity >= its length, bcomparator.Sort returns a sorted permutation (premises of the theorems; the harness records the "
+        "codec's actual outputs per case and Check.v verifies that the recorded tables are injective)",
+        "verif accessors VerifLenCap (arraylist), VerifRing (circularbuffer), VerifNewSafe (hashset) - add-only files, build tag verif",
+        "the C09 models of hash / linked / bidi containers, which this property reuses",
+    ],
+    "modelled": ["red-black tree, AVL tree, B-tree (abstract sorted association list; C01)", "doubly / singly linked list pointer structure (C07)",
+                 "heap order inside binaryheap / priorityqueue (C08)", "sync.Mutex of the Safe* wrappers", "bcache expiry (entries are stored without deadline)"],
+    "assumptions": ["element / key / value types int and string with valid UTF-8", "decode target of the same type; a fresh one for the property, a non-empty one for the model tie"],
     "widen_runs": 1,
 }
